@@ -117,7 +117,7 @@ Lemma def_eq : calculus_subtraction_def = {| params := ["number"%string; "base"%
 Proof. reflexivity. Qed.
 
 Ltac step := cbn [exec eval lift seq rbind assign lookup update bind_tuple items String.eqb Ascii.eqb Bool.eqb andb
-                  binop_vals cmp_vals truthy builtin1_val builtin2_val index_val mixes_bool to_str to_int val_eqb].
+                  binop_vals binop_scalar cmp_vals cmp_scalar is_arr orb truthy builtin1_val builtin2_val index_val mixes_bool to_str to_int val_eqb].
 
 (* the environment inside the single iteration of the outer loop *)
 Definition ENV (num : list val) (b : Z) (r : list Z) (fa : Z) : env :=
